@@ -1356,12 +1356,14 @@ namespace jsoncons {
             {
                 auto alloc = get_allocator();
                 destroy();
+                construct<null_storage>(); // stay valid if the copy throws
                 uninitialized_copy_a(other.cast<const_json_ref_storage>().value(), alloc);
             }
             else if (other.storage_kind() == json_storage_kind::json_ref)
             {
                 auto alloc = get_allocator();
                 destroy();
+                construct<null_storage>(); // stay valid if the copy throws
                 uninitialized_copy_a(other.cast<json_ref_storage>().value(), alloc);
             }
             else if (is_primitive_storage(other.storage_kind()))
@@ -1377,6 +1379,7 @@ namespace jsoncons {
                     {
                         auto alloc = cast<long_string_storage>().get_allocator();
                         destroy();
+                        construct<null_storage>(); // stay valid if the copy throws
                         uninitialized_copy_a(other, alloc);
                         break;
                     }
@@ -1384,6 +1387,7 @@ namespace jsoncons {
                     {
                         auto alloc = cast<byte_string_storage>().get_allocator();
                         destroy();
+                        construct<null_storage>(); // stay valid if the copy throws
                         uninitialized_copy_a(other, alloc);
                         break;
                     }
@@ -1407,6 +1411,7 @@ namespace jsoncons {
             {
                 auto alloc = get_allocator();
                 destroy();
+                construct<null_storage>(); // stay valid if the copy throws
                 uninitialized_copy_a(other, alloc);
             }
         }
